@@ -1,7 +1,7 @@
 ------------------------------ MODULE FetchGen ------------------------------
 (* E2 for C03: case export.  The universe is every (graph, edit pattern) with up to MaxRev revisions, at most MaxPar
    parents and NGhosts ghosts, in TLC's normalised order; the harness names the members it wants by index (VF_IDX, a
-   JSON list drawn from its seeded generator).  For each of them TLC writes the history (graph, revision trees, the text
+   JSON request with the list drawn from its seeded generator).  For each of them TLC writes the history (graph, revision trees, the text
    keys and per-file graph that the commit RULE predicts, signed revisions) and EVERY case of it: every ancestry-closed
    subset X of the graph as the target's content, every revision as the one to fetch, with the content the
    specification says the target holds afterwards.  Each picked history is one initial state on which the laws are
@@ -11,7 +11,10 @@ CONSTANTS MaxRev, NGhosts, MaxPar
 GhostSet == IF NGhosts = 0 THEN {} ELSE {GhostId}
 AllGraphs == UNION {GhostDags(n, MaxPar, GhostSet) : n \in 1..MaxRev}
 Universe == SetToSeq(AllGraphs \X Patterns)
-Picked == IF "VF_IDX" \in DOMAIN IOEnv THEN JsonDeserialize(IOEnv.VF_IDX) ELSE <<>>
+\* the request: [idx |-> indices into Universe, long |-> n]; long > 0 additionally asks for one LINEAR history of n revisions
+\* (edit pattern 2) - outside the exhaustive universe, for code that works in batches of 100 revisions
+Req == IF "VF_IDX" \in DOMAIN IOEnv THEN JsonDeserialize(IOEnv.VF_IDX) ELSE [idx |-> <<>>, long |-> 0]
+Picked == Req.idx
 HistOf(i) == History(Universe[i][1], Universe[i][2])
 Seqs(c) == [revs |-> SetToSeq(c.revs), invs |-> SetToSeq(c.invs), texts |-> SetToSeq(c.texts), sigs |-> SetToSeq(c.sigs)]
 CasesOf(h) == ClosedSubsets(h.P) \X DOMAIN h.P
@@ -22,6 +25,14 @@ HistOut(i) ==
          fpk |-> SetToSeq({<<k[1], k[2], SetToSeq(k[3])>> : k \in FileParentKeys(h)}),
          signed |-> SetToSeq(Signed(h.P)),
          cases |-> SetToSeq({[S |-> SetToSeq(x[1]), rev |-> x[2], exp |-> Seqs(Expect(h, x[1], x[2]))] : x \in CasesOf(h)})])
+Linear(n) == [r \in 1..n |-> IF r = 1 THEN <<>> ELSE <<r - 1>>]
+LongCases(n) == {<<{}, n>>, <<1..(n \div 2), n>>, <<{}, n - 4>>, <<1..(n - 1), n>>, <<1..n, n>>}
+LongOut(n) ==
+    Let(History(Linear(n), 2), LAMBDA h :
+        [idx |-> 0, P |-> h.P, pat |-> 2, T |-> h.T, texts |-> SetToSeq(TextKeys(h)),
+         fpk |-> SetToSeq({<<k[1], k[2], SetToSeq(k[3])>> : k \in FileParentKeys(h)}),
+         signed |-> SetToSeq(Signed(h.P)),
+         cases |-> SetToSeq({[S |-> SetToSeq(x[1]), rev |-> x[2], exp |-> Seqs(Expect(h, x[1], x[2]))] : x \in LongCases(n)})])
 VARIABLE c
 Init == c \in Set(Picked)
 Next == UNCHANGED c
@@ -32,6 +43,7 @@ LawsHoldOnSpec ==
                 /\ AncestryClosed(h.P, t.revs) /\ t = Content(h, t.revs)
                 /\ Let(ObsOf(h, Content(h, DOMAIN h.P), t, FetchOut(h.P, Content(h, DOMAIN h.P), t, x[2])),
                        LAMBDA o : FetchFailed([P |-> h.P, rev |-> x[2]], o)) = {}))
-Export == JsonSerialize(IOEnv.VF_OUT, [n |-> Len(Universe), hist |-> [k \in DOMAIN Picked |-> HistOut(Picked[k])]])
+Export == JsonSerialize(IOEnv.VF_OUT, [n |-> Len(Universe), hist |-> [k \in DOMAIN Picked |-> HistOut(Picked[k])],
+                                        long |-> IF Req.long = 0 THEN <<>> ELSE <<LongOut(Req.long)>>])
 ASSUME IF "VF_OUT" \in DOMAIN IOEnv THEN Export ELSE TRUE
 =============================================================================
